@@ -224,7 +224,7 @@ impl C19 {
         }
     }
     fn stride(&self, tier: Tier) -> u64 {
-        tier.pick(41, 31)
+        tier.pick(53, 31)
     }
     fn kspace(&self, tier: Tier) -> &KernelSpace {
         tier.pick(&self.space, &self.space_t)
@@ -472,7 +472,7 @@ impl Property for C19 {
         1 + self.items.len() as u64 + self.n_programs(tier) + FIXED_PROGRAMS.len() as u64
     }
     fn chunk(&self, _tier: Tier) -> u64 {
-        80
+        25
     }
     fn profiles(&self, _tier: Tier) -> Vec<&'static str> {
         vec!["release", "checked"]
@@ -513,7 +513,7 @@ impl Property for C19 {
     }
     fn info(&self, tier: Tier) -> Info {
         Info {
-            rule: "(a) every AvailableValue variant x parameters {0, 1, -1, 5, MIN, MAX} / registers {x0, sp, t0, s11} / labels / CSR numbers {0, 5, 64, 3072}, every MemoryLocation variant x boundary offsets (incl. i32::MIN), every register set of <= 2 registers and the full set, each placed in a one-node dump: dump -> load -> dump must be a textual fixed point, the loaded structure must equal the written one field by field, and no two different values may share a dump (all pairs); (b) the dump of every 41st (quick family) / 31st (thorough family) kernel program: same round trip, and every single-fact perturbation of the analysis result (one live-in / live-out bit, one register fact, one stack fact, one edge, at every node) must change the dump; the CLI's --yaml output must load to the same structure. Release and overflow-checked builds. Non-trivial = analysed programs".into(),
+            rule: "(a) every AvailableValue variant x parameters {0, 1, -1, 5, MIN, MAX} / registers {x0, sp, t0, s11} / labels / CSR numbers {0, 5, 64, 3072}, every MemoryLocation variant x boundary offsets (incl. i32::MIN), every register set of <= 2 registers and the full set, each placed in a one-node dump: dump -> load -> dump must be a textual fixed point, the loaded structure must equal the written one field by field, and no two different values may share a dump (all pairs); (b) the dump of every 53rd (quick family) / 31st (thorough family) kernel program: same round trip, and every single-fact perturbation of the analysis result (one live-in / live-out bit, one register fact, one stack fact, one edge, at every node) must change the dump; the CLI's --yaml output must load to the same structure. Release and overflow-checked builds. Non-trivial = analysed programs".into(),
             bounds: json!({"values": self.items.len(), "programs": self.n_programs(tier)}),
             assumptions: vec!["field-wise comparison looks through NodeWrapper's public fields (hook H7) because the derived equality compares parser nodes by id only".into()],
             states_counter: "cases",
